@@ -23,10 +23,8 @@ def emitter_facts(prog, roles, em):
     f = prog.fn(em)
     ps = prog.params(f)
     inst = ps[0]["name"]
-    posp = [p["name"] for p in ps if qtype(p) == "unsigned int *"]
-    if len(posp) != 1:
-        raise AnalysisBroken("emitter %s: position parameter not identified" % em)
-    P = "*" + posp[0]
+    posname, is_param = PL.position_of(prog, roles, em)
+    P = ("*" + posname) if is_param else posname
     facts = {"fn": em, "inst": inst, "P": P, "encode_calls": [], "room_calls": [], "pad_calls": [], "grid": [], "updates": [],
              "locals": {}}
     for m in walk(prog.body(f)):
@@ -294,32 +292,16 @@ def division_sites_rule(chk, prog, roles, rule="DIV"):
     ev = _mode_enum(prog)
     lib = prog.lib_functions()
     n = 0
-    # which emitters does the driver call under which case
+    # which emitters does the driver call under which values of the mode (switch cases or ==/!= tests: a flow analysis
+    # of the driver over the set of possible modes)
     drv = lib[roles.driver]
+    dom = _ModeAtCallDomain(prog, ev, set(lib))
+    Flow(dom).function(prog, drv, frozenset(ev.values()))
+    names = {v: k for k, v in ev.items()}
     case_of = {}
-    for sw in walk(prog.body(drv)):
-        if sw.get("kind") != "SwitchStmt":
-            continue
-        cond = strip(kids(sw)[0], casts=True)
-        if not (cond.get("kind") == "MemberExpr" and cond.get("name") == "assembly_mode"):
-            continue
-        body = kids(sw)[-1]
-        cur = []
-        for st in kids(body):
-            labs = []
-            inner = st
-            while inner.get("kind") in ("CaseStmt", "DefaultStmt"):
-                if inner["kind"] == "CaseStmt":
-                    v = ConstEval(prog).try_eval(kids(inner)[0])
-                    labs += [nm for nm, x in ev.items() if x == v]
-                else:
-                    labs.append("default")
-                inner = kids(inner)[-1]
-            if labs:
-                cur = labs
-            for c in walk(inner):
-                if c.get("kind") == "CallExpr" and callee_name(c) in roles.emitters:
-                    case_of.setdefault(callee_name(c), set()).update(cur)
+    for callee, modes in dom.calls:
+        case_of.setdefault(callee, set()).update(names.get(v, "?%s" % v) for v in modes)
+    guarded_fitting = {c for c, modes in case_of.items() if modes <= {"CHUNK_FITTING"}}
     for fn, f in sorted(lib.items()):
         for m in walk(prog.body(f)):
             if m.get("kind") == "BinaryOperator" and m.get("opcode") in ("%", "/"):
@@ -337,11 +319,82 @@ def division_sites_rule(chk, prog, roles, rule="DIV"):
                 else:
                     # debug printer: the caller guards with mode == CHUNK_FITTING
                     callers = EFF.callers_of(roles.g, fn)
-                    okc = callers == [roles.driver] and _call_guarded_by_mode(prog, drv, fn, ev)
+                    okc = callers == [roles.driver] and fn in guarded_fitting
                     chk.require(okc, rule, key, loc_str(m), "the division by chunk_size outside the emitters is only reached when the mode is CHUNK_FITTING",
                                 "callers %s" % callers)
     chk.floor("divisions by chunk_size", n, 3)
     return n
+
+
+class _ModeAtCallDomain:
+    """state: frozenset of the values <instance>->assembly_mode can have; records it at every call of a library function"""
+
+    def __init__(self, prog, ev, libnames):
+        self.prog, self.ev, self.lib = prog, ev, libnames
+        self.calls = []
+        self.ce = ConstEval(prog)
+
+    def copy(self, s): return s
+    def join(self, a, b): return a | b
+    def equal(self, a, b): return a == b
+    def widen(self, o, n): return n
+
+    def _is_mode(self, e):
+        e = strip(e, casts=True)
+        return e.get("kind") == "MemberExpr" and e.get("name") == "assembly_mode"
+
+    def decl(self, vd, s):
+        for c in kids(vd):
+            s = self.eval(c, s)
+        return s
+
+    def eval(self, e, s):
+        e0 = strip(e)
+        if not e0 or s is None:
+            return s
+        k, ks = e0.get("kind"), kids(e0)
+        if k == "CallExpr":
+            for a in call_args(e0):
+                s = self.eval(a, s)
+            if callee_name(e0) in self.lib:
+                self.calls.append((callee_name(e0), s))
+            return s
+        if k in ("BinaryOperator", "CompoundAssignOperator") and e0.get("opcode", "").endswith("=") and \
+                e0.get("opcode") not in ("==", "!=", "<=", ">=") and self._is_mode(ks[0]):
+            v = self.ce.try_eval(ks[1])
+            return frozenset([v]) if v is not None else frozenset(self.ev.values())
+        for c in ks:
+            s = self.eval(c, s)
+        return s
+
+    def assume(self, e, truth, s):
+        e0 = strip(e)
+        if e0.get("kind") == "BinaryOperator" and e0.get("opcode") in ("==", "!="):
+            l, r = kids(e0)
+            for a, b in ((l, r), (r, l)):
+                if self._is_mode(a):
+                    v = self.ce.try_eval(b)
+                    if v is not None:
+                        eq = (e0["opcode"] == "==") == truth
+                        out = frozenset(x for x in s if (x == v) == eq)
+                        return out or None
+        return s
+
+    def assume_case(self, cnd, case, s):
+        if self._is_mode(cnd):
+            v = self.ce.try_eval(case)
+            out = frozenset(x for x in s if x == v)
+            return out or None
+        return s
+
+    def assume_default(self, cnd, cases, s):
+        if self._is_mode(cnd):
+            vs = {self.ce.try_eval(c) for c in cases}
+            out = frozenset(x for x in s if x not in vs)
+            return out or None
+        return s
+
+    def ret(self, n, s): pass
 
 
 def _call_guarded_by_mode(prog, drv, callee, ev):
@@ -439,6 +492,8 @@ def counting_increment_rule(chk, prog, roles, rule="COUNT"):
     """in the counting emitter the counter is incremented exactly under `written > free space`"""
     n = 0
     for em in roles.emitters:
+        if em == roles.driver:
+            continue        # the driver resets the counter (RESET rule); it only counts through the counting emitter
         f = prog.fn(em)
         cp = [p["name"] for p in prog.params(f) if qtype(p) == "int *"]
         if not cp:
